@@ -168,6 +168,9 @@ def run_unit(unit, st, tier):
     # bound 0
     one(base, k >= 2)
     st.sample(base)
+    # the typed entities of the base scenario stay alive while its deviations are explored (parts are commonly kept around
+    # and re-wrapped); nothing they have computed may leak into later wrappers of rotated or re-ordered copies
+    asm.keep_alive(base)
     vec, mods = asm.pieces_to_plasmids(base)
     lens = [len(vec)] + [len(m) for m in mods]
     perms = list(itertools.permutations(range(k)))
